@@ -720,6 +720,10 @@ def get_attr(self, st, base, attr, node, default=KeyError):
             return [(st, "val", BoundMeth(base, None, attr))]
         if default is not KeyError:
             return [(st, "val", default)]
+        if o.synthetic:
+            # an object made up by the analysis harness: its field set proves nothing about the program
+            raise U_("the analysis harness' %s token (%s) has no attribute %r (read at %s): the code under analysis uses "
+                     "something the harness does not model" % (o.clsname(), o.label, attr, self.loc(node)))
         return self.raise_exc(st, "AttributeError", node, "missing-attr",
                               "%s object has no attribute %s" % (o.clsname(), attr))
     if base is None:
